@@ -3,7 +3,7 @@
 tier=${1:-quick}
 cd /verif
 rc=0
-for p in C01 C02 C03 C04 C05 C06 C07 C08 C09 C10 C11 C12 C13 C14 C15 C16 C17 C18 C19 C20; do
+for p in ${CHECKS:-C01 C02 C03 C04 C05 C06 C07 C08 C09 C10 C11 C12 C13 C14 C15 C16 C17 C18 C19 C20}; do
   s=$(date +%s)
   out=$(./check $p --tier $tier 2>&1); e=$?
   echo "$p exit=$e $(( $(date +%s) - s ))s | $(echo "$out" | grep -c '^VIOLATION') violations | $(echo "$out" | tail -1 | cut -c1-170)"
